@@ -17,7 +17,8 @@ From Coq Require Import List ZArith Bool.
 From V Require Import Gen.Params Lib.Hex SendStream.Model SendStream.ProofsBase SendStream.ProofsInv
   SendStream.ProofsCov SendStream.ProofsOut SendStream.ProofsFin SendStream.ProofsCnt SendStream.ProofsDone SendStream.ProofsLive SendStream.Theorems StreamE2E.Model StreamE2E.Compose
   StreamE2E.DgModel StreamE2E.DgProofs StreamE2E.PackModel StreamE2E.PackProofs
-  StreamE2E.Concrete StreamE2E.NetPkt StreamE2E.EndToEnd StreamE2E.NetExample.
+  StreamE2E.Concrete StreamE2E.NetPkt StreamE2E.EndToEnd StreamE2E.NetExample
+  StreamE2E.PayloadCompose StreamE2E.EndToEndCodec.
 Import ListNotations.
 Open Scope Z_scope.
 
@@ -472,3 +473,85 @@ Proof.
   - eexists. split; [vm_compute; reflexivity|]. split; vm_compute; reflexivity.
 Qed.
 Print Assumptions C01_concrete_nonvacuous.
+
+(** ** Round 6: the end-to-end theorems composed with C08's payload codec.
+    The receiver's parser on a plaintext is [Wire.Payload.parse_payload] (the frame loop of handleFrames over the
+    frame parser, tied to Go by C08) projected to the STREAM frames of the stream / the DATAGRAM payloads
+    ([frames_in_codec], [dgs_in_codec]); the former hypotheses [packed] and [wire_dgs] about an uninterpreted
+    parser are now lemmas (PayloadCompose.packed_codec / EndToEndCodec.wire_dgs_from_codec, from
+    C08_payload_roundtrip / C08_payload_roundtrip_last).  Hypotheses that remain, exactly: ideal AEAD; honest
+    sealer; the packer hypothesis ON FRAME LISTS (every sealed plaintext is [payload_of d] - C08's serialisation,
+    PADDING anywhere, every frame self-delimiting except possibly the last - of a well-formed frame list [d]
+    whose STREAM frames of this stream are frames popStreamFrame returned, resp. whose DATAGRAM payloads are those
+    of the packer model's packet); delivered_is_handled / handled_is_processed (the stream / datagram layer is fed
+    what parse_payload finds in the processed packets); window, non-negative reads, no receiver error. *)
+Theorem C01_end_to_end_prefix_codec :
+  forall aead_seal aead_open hp_mask sealed,
+  (forall pn kp ad c p, aead_open pn kp ad c = Some p -> sealed pn kp ad p /\ c = aead_seal pn kp ad p) ->
+  forall (sent : list (Z * Z * list Z)),
+  (forall pn kp hdr p, sealed pn kp hdr p -> In (pn, kp, p) sent) ->
+  forall (cfg0 : Wire.Frames.cfg) (nevs : list nev)
+         (sid0 : Z) (rsa : bool) (swin cwin : Z) (ops : list op) (w : Z) (evs : list cev),
+  let s := fst (run (init sid0 rsa swin cwin) ops) in
+  let E := frames_of (snd (run (init sid0 rsa swin cwin) ops)) in
+  (forall x, In x sent ->
+     exists d, pk_ok cfg0 d /\ snd x = payload_of d /\
+               forall f, In f (omap (stream_of sid0) (frames_of_desc d)) -> In f E) ->
+  cdelivered evs = stream_frames_handled aead_open hp_mask (frames_in_codec cfg0 sid0) nevs ->
+  0 <= w < FrameSorter.Model.MaxBC -> (forall n, In (CRead n) evs -> 0 <= n) ->
+  forall r, crun (RecvStream.Spec.rrun_init w) evs = Some r ->
+  (exists rest, W s = RecvStream.Spec.rr_out r ++ rest) /\
+  (RecvStream.Spec.rr_eof r = true -> RecvStream.Spec.rr_out r = W s /\ finishedWriting s = true).
+Proof. exact e2e_prefix_codec. Qed.
+Print Assumptions C01_end_to_end_prefix_codec.
+
+Theorem C01_complete_if_covered_codec :
+  forall aead_seal aead_open hp_mask sealed,
+  (forall pn kp ad c p, aead_open pn kp ad c = Some p -> sealed pn kp ad p /\ c = aead_seal pn kp ad p) ->
+  forall (sent : list (Z * Z * list Z)),
+  (forall pn kp hdr p, sealed pn kp hdr p -> In (pn, kp, p) sent) ->
+  forall (cfg0 : Wire.Frames.cfg) (nevs : list nev)
+         (sid0 : Z) (rsa : bool) (swin cwin : Z) (ops : list op) (w : Z) (evs : list cev),
+  let s := fst (run (init sid0 rsa swin cwin) ops) in
+  let E := frames_of (snd (run (init sid0 rsa swin cwin) ops)) in
+  (forall x, In x sent ->
+     exists d, pk_ok cfg0 d /\ snd x = payload_of d /\
+               forall f, In f (omap (stream_of sid0) (frames_of_desc d)) -> In f E) ->
+  cdelivered evs = stream_frames_handled aead_open hp_mask (frames_in_codec cfg0 sid0) nevs ->
+  0 <= w < FrameSorter.Model.MaxBC -> (forall n, In (CRead n) evs -> 0 <= n) ->
+  forall n r0, 0 < n -> crun (RecvStream.Spec.rrun_init w) evs = Some r0 ->
+  (forall i, 0 <= i < zlen (W s) -> in_range (cdelivered evs) i) ->
+  existsb f_fin (cdelivered evs) = true ->
+  exists r, crun r0 (repeat (CRead n) (Datatypes.S (Z.to_nat (zlen (W s))))) = Some r /\
+            RecvStream.Spec.rr_out r = W s /\ RecvStream.Spec.rr_eof r = true /\ finishedWriting s = true.
+Proof. exact e2e_complete_codec. Qed.
+Print Assumptions C01_complete_if_covered_codec.
+
+Theorem C01_datagram_end_to_end_codec :
+  forall aead_seal aead_open hp_mask sealed,
+  (forall pn kp ad c p, aead_open pn kp ad c = Some p -> sealed pn kp ad p /\ c = aead_seal pn kp ad p) ->
+  forall (sent : list (Z * Z * list Z)),
+  (forall pn kp hdr p, sealed pn kp hdr p -> In (pn, kp, p) sent) ->
+  forall (cfg0 : Wire.Frames.cfg) (nevs : list nev),
+  forall pops : list pop_, Forall wf_op pops ->
+  Forall2 (fun b pkt => exists d, pk_ok cfg0 d /\ b = payload_of d /\ omap dg_of (frames_of_desc d) = pkt_dgs pkt)
+          (map snd sent) (sent_of (combine pops (snd (prun pk0 pops)))) ->
+  forall rops : list dop, ~ In DPop rops ->
+  handled_of rops = datagrams_handled aead_open hp_mask (dgs_in_codec cfg0) nevs ->
+  forall d, (cnt d (received rops) <= cnt d (gAdded (p_dq (fst (prun pk0 pops)))))%nat.
+Proof. exact e2e_datagram_at_most_once_codec. Qed.
+Print Assumptions C01_datagram_end_to_end_codec.
+
+(** The codec composition computes: a payload with PADDING, a STREAM frame with length, a DATAGRAM with length,
+    a MAX_DATA frame, and a last STREAM frame without length field, parsed by C08's parse_payload and projected. *)
+Example C01_codec_nonvacuous :
+  let c := Wire.Frames.Cfg true true false 3 in
+  let d := mkPD [(0%nat, Wire.FramesBase.FStream 2 0 [1; 2; 3] false true);
+                 (2%nat, Wire.FramesBase.FDatagram true [9; 9]);
+                 (0%nat, Wire.FramesBase.FMaxData 70000)]
+                (Some (1%nat, Wire.FramesBase.FStream 2 3 [4; 5] true false)) in
+  frames_in_codec c 2 (payload_of d) = [mkF 0 [1; 2; 3] false; mkF 3 [4; 5] true] /\
+  dgs_in_codec c (payload_of d) = [[9; 9]] /\
+  frames_in_codec c 6 (payload_of d) = [].
+Proof. vm_compute. repeat split. Qed.
+Print Assumptions C01_codec_nonvacuous.
